@@ -29,7 +29,8 @@ from pymbolic.mapper import IdentityMapper
 from pytools import UniqueNameGenerator
 
 from dagrt.codegen.dag_ast import (
-    ASTIdentityMapper, Block, StatementWrapper, get_statements_in_ast)
+    ASTIdentityMapper, Block, ForLoop, IfThen, IfThenElse, StatementWrapper,
+    get_statements_in_ast)
 
 
 __doc__ = """
@@ -44,12 +45,48 @@ def get_stmt_id_generator(statements):
     return UniqueNameGenerator({stmt.id for stmt in statements})
 
 
-def get_var_name_generator(statements):
+def get_var_name_generator(statements, phase_ast=None):
     existing_variables = set()
     for stmt in statements:
         existing_variables.update(stmt.get_written_variables())
         existing_variables.update(stmt.get_read_variables())
+    if phase_ast is not None:
+        # Loop variables, loop bounds and conditions of the tree are names of
+        # the phase as well, also when no statement below them mentions them.
+        existing_variables.update(get_variables_in_ast_nodes(phase_ast))
     return UniqueNameGenerator(existing_variables)
+
+
+def get_variables_in_ast_nodes(ast):
+    """Return the set of variables mentioned by the structure nodes (loops
+    and conditionals) of the AST, as opposed to its statements.
+    """
+    from dagrt.utils import get_variables
+
+    if isinstance(ast, StatementWrapper):
+        return set()
+
+    result = set()
+    if isinstance(ast, IfThen):
+        result.update(get_variables(ast.condition))
+        children = (ast.then,)
+    elif isinstance(ast, IfThenElse):
+        result.update(get_variables(ast.condition))
+        children = (ast.then, ast.else_)
+    elif isinstance(ast, ForLoop):
+        result.add(ast.loop_var_name)
+        result.update(get_variables(ast.lbound))
+        result.update(get_variables(ast.ubound))
+        children = (ast.body,)
+    elif isinstance(ast, Block):
+        children = ast.children
+    else:
+        raise ValueError(f"Unknown node type: {ast.__class__.__name__}")
+
+    for child in children:
+        result.update(get_variables_in_ast_nodes(child))
+
+    return result
 
 
 # {{{ ast statement rewriter
@@ -77,7 +114,7 @@ def apply_statement_rewriter(rewriter_cls, phase_ast):
     statements = list(get_statements_in_ast(phase_ast))
     rewriter = rewriter_cls(
             stmt_id_gen=get_stmt_id_generator(statements),
-            var_name_gen=get_var_name_generator(statements))
+            var_name_gen=get_var_name_generator(statements, phase_ast))
 
     return rewriter(phase_ast)
 
